@@ -468,3 +468,81 @@ func certainlyNonNilError(v ssa.Value) bool {
 	}
 	return false
 }
+
+// ---- C02.R10: in the output clients no failed call is reported as success (an I/O error must abort the connection)
+
+var c02R10Reviewed = map[string]string{}
+
+func init() {
+	register("C02", "C02.R10", ruleC02R10)
+}
+
+func ruleC02R10(c *Ctx) {
+	var fns []*ssa.Function
+	for _, fn := range c.P.universe {
+		rel := relPkg(fnPkgPath(fn))
+		if !(strings.HasPrefix(rel, "output/") || rel == "output") || fn.Blocks == nil {
+			continue
+		}
+		nres := fn.Signature.Results().Len()
+		if nres == 0 || !isErrorType(fn.Signature.Results().At(nres-1).Type()) {
+			continue
+		}
+		// construction / configuration is C16's business
+		if strings.Contains(fn.Name(), "VerifyConfig") || strings.Contains(fn.Name(), "UnmarshalYAML") {
+			continue
+		}
+		fns = append(fns, fn)
+	}
+	sort.Slice(fns, func(i, j int) bool { return anchorName(fns[i]) < anchorName(fns[j]) })
+	n := 0
+	for _, fn := range fns {
+		for _, s := range callsIn(fn) {
+			if _, isCall := s.(*ssa.Call); !isCall {
+				continue
+			}
+			if !callReturnsError(s) || neverNilError(s.Value()) {
+				continue
+			}
+			e := errResultOf(s)
+			used := false
+			if e != nil && e.Referrers() != nil {
+				for _, r := range *e.Referrers() {
+					if _, ok := r.(*ssa.DebugRef); !ok {
+						used = true
+					}
+				}
+			}
+			n++
+			callee := "?"
+			if f := s.Common().StaticCallee(); f != nil {
+				callee = extName(f)
+				if strings.HasPrefix(fnPkgPath(f), modPath) {
+					callee = anchorName(f)
+				}
+			} else if s.Common().IsInvoke() {
+				callee = s.Common().Method.Name()
+			} else {
+				callee = canonOf(s.Common().Value)
+			}
+			key := anchorName(fn) + "|" + callee
+			if !used {
+				key += "|discarded"
+				e = nil
+			}
+			construct := "a failure of " + callee + " is not reported as success"
+			if why, ok := c02R10Reviewed[key]; ok {
+				c.assumed("C02.R10", fn, construct, s.Pos(), "reviewed: "+why)
+				continue
+			}
+			hit, tr := failureSwallowed(fn, s, e)
+			if hit != nil && os.Getenv("SLOGCHECK_F6KEYS") != "" {
+				fmt.Printf("R10KEY02 %q: \"\", // %s\n", key, c.P.pos(s.Pos()))
+			}
+			c.check(hit == nil, "C02.R10", fn, construct, s.Pos(),
+				"with the error assumed non-nil (or discarded) no success return is reachable",
+				"a failure of this call can be reported as success: the session goes on with a connection in an unknown state, and a chunk can be queued for ACK or confirmed although it was not transmitted: "+c.P.trailString(tr))
+		}
+	}
+	c.floor("C02.R10", "fallible calls in error-returning functions of the output packages", n, 30)
+}
